@@ -10,11 +10,17 @@
      (C06_closed_when_done) every channel it owns is closed.
    - CANCEL-EXIT: cancelled + inputs closed + no step enabled => every goroutine has returned and every channel
      is closed, WITHOUT any hypothesis about receives (nobody needs to receive ever again).
-   That runs reach such states (no infinite internal activity, the scheduler lets enabled goroutines run) is
-   scheduler fairness + the structure of the goroutines; see DESIGN.md 5. *)
+   - NO LIVELOCK (C06_internal_steps_terminate, C06_no_infinite_internal_run): for every stage without generator
+     sources (all stages except Unfold, Emit and Throttling's pacer) the internal step relation [istep] - worker
+     steps with either resolution of a select, and the closer - is well-founded from EVERY state, reachable or
+     not: between two environment events (send, close, receive, cancel, gate release, clock advance) the
+     goroutines of the stage take only finitely many steps.  For generator stages this is not a theorem (their
+     rounds end in a send that needs room or in a timer; argued in DESIGN.md 5).
+   That runs reach the quiescent states (the scheduler lets enabled goroutines run) is scheduler fairness. *)
 From Coq Require Import List ZArith.
 From Golem Require Import Base.Lists Pipe.Pool Pipe.Stages Pipe.PoolSteps Pipe.PoolSafe Pipe.PoolClosed Pipe.PoolLive
-     Pipe.PoolSimple Pipe.PoolSeq Pipe.PoolStages Pipe.PoolStages2 Pipe.PoolErr Pipe.PoolMultiStages Pipe.PoolGen Pipe.PoolCancel.
+     Pipe.PoolSimple Pipe.PoolSeq Pipe.PoolStages Pipe.PoolStages2 Pipe.PoolErr Pipe.PoolMultiStages Pipe.PoolGen Pipe.PoolCancel
+     Pipe.PoolVariant.
 Import ListNotations.
 Open Scope Z_scope.
 
@@ -146,3 +152,27 @@ Theorem C06_stages_wf : forall (f : Z -> res) (fa : Z -> list Z * option Z) (p :
   wf_cfg (unfold_cfg f try seed ocaps) /\ wf_cfg (emit_cfg freq f try ocaps).
 Proof. exact stages_wf. Qed.
 Print Assumptions C06_stages_wf.
+
+(* NO LIVELOCK: the internal moves of a stage without generator sources ([istep]: a worker step with either
+   resolution of a select, or the closer; a panicked program does not move) are well-founded from every state,
+   reachable or not: every sequence of internal steps is finite *)
+Theorem C06_internal_steps_terminate : forall (c : cfg),
+  (forall w, (w < par c)%nat -> exists i, src c w = SIn i) ->
+  forall s : state, Acc (fun s' s0 => istep c s0 s') s.
+Proof. exact internal_steps_terminate. Qed.
+Print Assumptions C06_internal_steps_terminate.
+
+(* [istep] spelled out *)
+Theorem C06_istep_iff : forall (c : cfg) (s s' : state),
+  istep c s s' <->
+  panicked s = false /\
+  ((exists w ch, (w < par c)%nat /\ step_worker c s w ch = Some s') \/ step_ok c s ECloser = Some s').
+Proof. exact istep_iff. Qed.
+Print Assumptions C06_istep_iff.
+
+(* ... so there is no infinite run of internal steps *)
+Theorem C06_no_infinite_internal_run : forall (c : cfg),
+  (forall w, (w < par c)%nat -> exists i, src c w = SIn i) ->
+  forall f : nat -> state, ~ (forall n, istep c (f n) (f (S n))).
+Proof. exact no_infinite_internal_run. Qed.
+Print Assumptions C06_no_infinite_internal_run.
